@@ -1,6 +1,8 @@
 //! `cvh <property> --tier quick|thorough [--seed N] [--widen] [--replay file]`
 //! Prints one JSON report on the last line of stdout.
+mod c01;
 mod c03;
+mod core;
 mod c17;
 mod c25;
 mod e2e;
@@ -62,6 +64,7 @@ fn main() {
                 "C25" => c25::replay(&f["input"]),
                 "C17" => c17::replay(&f["input"]),
                 "C03" => c03::replay(&f["input"]),
+                "C01" => c01::replay(&f["input"]),
                 "C27" => c27::replay(&f["input"]),
                 "C22" => c22::replay(&f["input"]),
                 "C23" => c23::replay(&f["input"]),
@@ -91,6 +94,7 @@ fn main() {
         "C25" => c25::run(&tier, seed, widen),
         "C17" => c17::run(&tier, seed, widen),
         "C03" => c03::run(&tier, seed, widen),
+        "C01" => c01::run(&tier, seed, widen),
         "C27" => c27::run(&tier, seed, widen),
         "C22" => c22::run(&tier, seed, widen),
         "C23" => c23::run(&tier, seed, widen),
